@@ -1,12 +1,16 @@
 #!/bin/sh
-# usage: tools/try_patch.sh <patch.diff> <PROPERTY-ID> [tier]  - apply a seeded change to /repo, run one check, undo
+# usage: tools/try_patch.sh <patch.diff> <PROPERTY-ID> [tier]  - apply a seeded change to /repo, run one check, undo.
+# The evidence file of the property is preserved (evidence must describe the unchanged tree).
 P="$1"; ID="$2"; TIER="${3:-quick}"
 cd /repo || exit 9
 git apply "$P" || { echo "patch does not apply"; exit 9; }
 cd /verif
+cp evidence/$ID.json /tmp/evidence.$ID.$$ 2>/dev/null
 ./check "$ID" --tier "$TIER" > /tmp/try_patch.$$.log 2>&1
 RC=$?
 grep -E "^VIOLATION|^INCONCLUSIVE|^KNOWN-FINDING|^C[0-9]+ (quick|thorough)" /tmp/try_patch.$$.log | cut -c1-330 | head -8
+grep -A1 "^VIOLATION" /tmp/try_patch.$$.log | grep -v "^VIOLATION\|^--" | cut -c1-260 | head -3
 echo "exit=$RC"
 rm -f /tmp/try_patch.$$.log
+[ -f /tmp/evidence.$ID.$$ ] && mv /tmp/evidence.$ID.$$ evidence/$ID.json
 git -C /repo checkout -- .
